@@ -79,6 +79,15 @@ def request_execute(case, stats):
         check(False, key, f"headers: got {dict(r.headers)!r}, expected {dict(hdr)!r}; {ctx}")
     eq(list(r.headers.keys()), [k for k, _ in hdr], "request:header_order", "header order; " + ctx)
     eq(r.body, case["body"], "request:body", "body; " + ctx)
+    # every parse stands on its own: changing a returned object must not influence a later parse of the same bytes
+    try:
+        r.params[b"__verif_added"] = b"1"
+        r.headers[b"X-Verif-Added"] = b"1"
+    except TypeError:
+        pass
+    r2 = lib(c2.parse_raw_http, wire, what="parse_raw_http (second parse)")
+    if dict(r2.params) != want_params or dict(r2.headers) != dict(hdr) or r2.uri != case["path"] or r2.body != case["body"]:
+        check(False, "request:parse_depends_on_history", f"second parse of the same bytes differs after the first result was modified: params={dict(r2.params)!r} headers={dict(r2.headers)!r}; {ctx}")
     enc = any(b not in W.UNRESERVED for k, v in prm for b in k + v)
     stats.note(
         case,
